@@ -15,7 +15,8 @@ theorem core_relist {ex : Option Nat} {s : State} (c : Core ex s) (t : State) (h
     (hkeep : ∀ x ∈ hostList s a, x ∈ l') : Core ex t := by
   have obj : ∀ x, t.obj x = s.obj x := same.obj
   have lv : ∀ x, Live t x ↔ Live s x := fun x => by simp [Live, obj, same.indexes]
-  refine ⟨hr, ?_, ?_, ?_, ?_, ?_, ?_, ?_, ?_, ?_⟩
+  have rst : ∀ x, t.rstate x = s.rstate x := same.rstate
+  refine ⟨hr, ?_, ?_, ?_, ?_, ?_, ?_, ?_, ?_, ?_, ?_, ?_, ?_, ?_⟩
   · intro a' x hx
     rw [hl] at hx; rw [obj, lv]
     split at hx
@@ -32,10 +33,14 @@ theorem core_relist {ex : Option Nat} {s : State} (c : Core ex s) (t : State) (h
     · rename_i e; subst e; exact hkeep x this
     · exact this
   · intro r x hx; rw [same.rindexes] at hx; rw [obj, lv]; exact c.ridx r x hx
-  · intro i x hx; rw [same.relays] at hx; rw [obj, lv]; exact c.rel i x hx
+  · intro i x hx; rw [same.relays] at hx; rw [rst, lv]; exact c.rel i x hx
+  · intro x i hl hk; rw [lv] at hl; rw [rst] at hk; rw [same.relays]; exact c.relOwn x i hl hk
+  · intro x; rw [rst]; exact c.rok x
+  · intro x i hk; rw [rst] at hk; rw [same.next, same.pidx, same.vpnIps]; exact c.rsPend x i hk
   · intro i x hx; rw [same.pidx] at hx; rw [obj, same.indexes]; exact c.pidx i x hx
   · intro a' x hx; rw [same.vpnIps] at hx; rw [obj, lv]; exact c.vpn a' x hx
   · intro x hx; rw [same.next] at hx; rw [same.objs]; exact c.fresh x hx
+  · intro a' x hx hr; rw [same.vpnIps] at hx; rw [obj] at hr ⊢; rw [same.pidx]; exact c.vpnReady a' x hx hr
 
 /-! ### `unlockedMakePrimary` -/
 
@@ -103,11 +108,49 @@ structure AddFrame (s t : State) : Prop where
   vpnIps : t.vpnIps = s.vpnIps
   pidx : t.pidx = s.pidx
   next : t.next = s.next
+  rs : ∀ x, RsLe (s.rstate x) (t.rstate x)
+  idxSub : ∀ i x, t.indexes.get i = some x → s.indexes.get i = some x
+  relSub : ∀ i x, t.relays.get i = some x → s.relays.get i = some x
+  ridxKeep : ∀ r x, s.rindexes.get r = some x →
+    t.rindexes.get r = some x ∨ t.indexes.get (s.obj x).lidx ≠ some x
 
-theorem AddFrame.refl (s : State) : AddFrame s s := ⟨rfl, rfl, rfl, rfl⟩
+theorem AddFrame.refl (s : State) : AddFrame s s :=
+  ⟨rfl, rfl, rfl, rfl, fun _ => RsLe.refl _, fun _ _ e => e, fun _ _ e => e, fun _ _ e => Or.inl e⟩
 theorem AddFrame.trans {s t u : State} (a : AddFrame s t) (b : AddFrame t u) : AddFrame s u :=
-  ⟨b.objs.trans a.objs, b.vpnIps.trans a.vpnIps, b.pidx.trans a.pidx, b.next.trans a.next⟩
-theorem SameIdx.addFrame {s t : State} (a : SameIdx s t) : AddFrame s t := ⟨a.objs, a.vpnIps, a.pidx, a.next⟩
+  ⟨b.objs.trans a.objs, b.vpnIps.trans a.vpnIps, b.pidx.trans a.pidx, b.next.trans a.next,
+   fun x => (a.rs x).trans (b.rs x), fun i x e => a.idxSub i x (b.idxSub i x e),
+   fun i x e => a.relSub i x (b.relSub i x e),
+   fun r x e => by
+     have ho : t.obj x = s.obj x := by simp [State.obj, a.objs]
+     rcases a.ridxKeep r x e with k | k
+     · rcases b.ridxKeep r x k with k2 | k2
+       · exact Or.inl k2
+       · right; rw [← ho]; exact k2
+     · right; intro e2; exact k (b.idxSub _ x e2)⟩
+theorem SameIdx.addFrame {s t : State} (a : SameIdx s t) : AddFrame s t :=
+  ⟨a.objs, a.vpnIps, a.pidx, a.next, fun x => by rw [a.rstate]; exact RsLe.refl _,
+   fun i x e => by rw [a.indexes] at e; exact e, fun i x e => by rw [a.relays] at e; exact e,
+   fun r x e => Or.inl (by rw [a.rindexes]; exact e)⟩
+
+theorem DeleteSpec.addFrame {s t : State} {h : Nat} {f : Bool} (d : DeleteSpec s h t f)
+    (hr : ∀ r x, s.rindexes.get r = some x → (s.obj x).ridx = r) : AddFrame s t := by
+  refine ⟨d.objs, d.vpnIps, d.pidx, d.next, d.rs, fun i x e => ?_, fun i x e => ?_, fun r x e => ?_⟩
+  · rw [d.indexes] at e; split at e
+    · cases e
+    · exact e
+  · rw [d.relays] at e; split at e
+    · cases e
+    · exact e
+  · rw [d.rindexes]
+    by_cases c : r = (s.obj h).ridx ∧ s.rindexes.get r = some h
+    · right
+      have : x = h := by rw [c.2] at e; exact (Option.some.inj e).symm
+      subst this
+      rw [d.indexes]
+      by_cases c2 : s.indexes.get (s.obj x).lidx = some x
+      · simp [c2]
+      · simp [c2]
+    · left; simp only [c, ↓reduceIte]; exact e
 
 theorem not_indexed_of_free {h : Nat} {s : State} (j : Adding h s) : ∀ i, s.indexes.get i ≠ some h := by
   intro i hi
@@ -125,7 +168,7 @@ theorem innerAdd_inv {h a : Nat} {s : State} (j : Adding h s) (ha : a ∈ (s.obj
     have hm : s.more.get a = none := rep_more_none j.core.rep hh
     have hl0 : hostList s a = [] := by simp [hostList_hosts hm, hh]
     let t : State := { s with hosts := s.hosts.set a h }
-    have same : SameIdx s t := ⟨rfl, rfl, rfl, rfl, rfl, rfl, rfl⟩
+    have same : SameIdx s t := ⟨rfl, rfl, rfl, rfl, rfl, rfl, rfl, rfl⟩
     have hl : ∀ a', hostList t a' = if a' = a then [h] else hostList s a' := by
       intro a'
       by_cases e : a' = a
@@ -207,7 +250,7 @@ theorem innerAdd_inv {h a : Nat} {s : State} (j : Adding h s) (ha : a ∈ (s.obj
         · exact Nat.le_trans (List.length_filter_le _ _) (j.cap a')
       · have ho : (deleteHost s1 old).1.obj h = s1.obj h := by simp [State.obj, d2.objs]
         rw [ho, d2.indexes, free1]; simp
-      · exact same1.addFrame.trans ⟨d2.objs, d2.vpnIps, d2.pidx, d2.next⟩
+      · exact same1.addFrame.trans (d2.addFrame (fun r x e => (c1.ridx r x e).2))
       · rw [l2 a, hl1 a]; simp [list, Ne.symm hold_ne]
       · intro a' hm'
         rw [l2 a']
